@@ -455,6 +455,9 @@ class CallMixin(object):
         if n is not None:
             data['result'] = res
             self.route_raise(n, prims.MAY_RAISE.get(q, ()))
+            if q in ('urllib.parse.unquote', 'urllib.parse.unquote_plus') and \
+                    is_const(kwargs.get('errors'), 'strict'):
+                self.route_raise(n, ['UnicodeDecodeError'])
             if q in prims.SOFT_RAISE_CALLS:
                 self.route_raise(n, prims.SOFT_RAISE_CALLS[q], soft=True)
             self.drain_generators(args, kwargs, node)
@@ -715,6 +718,24 @@ class CallMixin(object):
                     return self.call(alts[0][0], args, kwargs, node)
                 return self.call_alternatives(Phi(alts), args, kwargs, node)
         self.stats['method_ext'] += 1
+        fobj = self.file_object_of(recv)
+        if fobj is not None and name in ('write', 'writelines', 'close', 'flush', 'truncate'):
+            under, writable = fobj
+            if name in ('write', 'writelines') and writable:
+                data = {'prim': 'file.write', 'kind': 'WRITE', 'args': list(args),
+                        'kwargs': dict(kwargs),
+                        'roles': {'fd': under, 'data': args[0] if args else None}}
+                n = self.emit('effect', node, data)
+                res = MCall(recv, name, tuple(args), tuple(sorted(kwargs.items())), n)
+                data['result'] = res
+                self.route_raise(n, ['OSError'])
+                return res
+            if name == 'close':
+                data = {'prim': 'file.close', 'kind': 'CLOSE', 'args': [], 'kwargs': {},
+                        'roles': {'fd': under}}
+                n = self.emit('effect', node, data)
+                self.route_raise(n, ['OSError'])
+                return NONE
         kind = None
         if name in prims.MUTATING_METHODS and not isinstance(recv, (Const, Fmt, ListObj, DictObj)):
             if self.maybe_pathlike(recv, name):
@@ -737,6 +758,23 @@ class CallMixin(object):
             self.route_raise(n, ['SystemExit'], soft=True)
         self.drain_generators(args, kwargs, node)
         return res
+
+    def file_object_of(self, recv):
+        """(underlying descriptor/open result, writable) when recv is a file object
+        made by os.fdopen(fd, mode) or open(path, mode)."""
+        for a in terms_of(recv):
+            if isinstance(a, Call) and a.fn == 'os.fdopen' and a.args:
+                mode = a.args[1] if len(a.args) > 1 else dict(a.kwargs).get('mode')
+                w = not (isinstance(mode, Const) and isinstance(mode.value, str) and
+                         not any(ch in mode.value for ch in 'wax+')) and mode is not None
+                return a.args[0], w
+            if isinstance(a, Call) and a.fn in ('open', 'io.open') and a.args:
+                mode = a.args[1] if len(a.args) > 1 else dict(a.kwargs).get('mode')
+                w = mode is not None and not (
+                    isinstance(mode, Const) and isinstance(mode.value, str) and
+                    not any(ch in mode.value for ch in 'wax+'))
+                return a, w
+        return None
 
     def method_is_total(self, recv, name, args):
         if name == 'encode' and isinstance(recv, Const):
